@@ -64,6 +64,18 @@ def analyse(ctx, replace=None, only=None):
         R.fn(f)
     vt = P.globals.get("s_trace_allocator", {}).get("init", {}).get("struct", {})
     exp = {"mem_acquire": "s_trace_mem_acquire", "mem_release": "s_trace_mem_release", "mem_realloc": "s_trace_mem_realloc", "mem_calloc": "s_trace_mem_calloc"}
+    # (the same table filled in place: `trace_allocator->mem_acquire = s_trace_mem_acquire;` in the constructor)
+    for g_ in fns.values():
+        for e_ in g_.field_accesses(rec="aws_allocator", modes=("w",)):
+            for b_ in g_.blocks.values():
+                for el_ in b_.elems:
+                    if el_["k"] == "bin" and el_["op"] == "=" and g_.d(el_["a"][0]) is e_.node:
+                        r_ = RU.uncast(g_, el_["a"][1])
+                        while r_ is not None and r_["k"] in ("decay", "cast", "un"):
+                            r_ = g_.d(r_["a"][0])
+                        if r_ is not None and r_["k"] == "fn" and e_.node["f"] not in vt:
+                            vt = dict(vt)
+                            vt[e_.node["f"]] = {"fn": r_.get("n")}
     for k, v in exp.items():
         R.check(vt.get(k, {}).get("fn") == v, "VTABLE", "slot:%s" % k, FILE, "vtable slot %s = %s" % (k, v), "vtable slot %s is %s" % (k, vt.get(k)))
 
@@ -468,6 +480,17 @@ def locks(R, fns):
                 continue
             base = f.show(e.node["a"][0], alias=True)
             want = base + "->mutex"
+            # taking the table's ADDRESS into a local is not a use of the table: the obligation moves to the uses of that local
+            holder = [v_ for v_, init_ in f.aliases().items() if init_ is not None and RU.strip_addr(f, init_) is e.node]
+            if holder:
+                uses = [c_ for c_ in f.all_events() if c_.kind == "call" and any(RU.uses_var(f, a_, holder[0]) for a_ in c_.node.get("a", []))]
+                okh = bool(uses)
+                for c_ in uses:
+                    h_ = RU.held_at(ts, c_)
+                    okh = okh and h_ is not None and want in h_
+                R.check(okh, "LOCK", inst, where(f, e), "%s held at every use of the local `%s` that points to the table" % (want, holder[0]),
+                        "tracer->%s is reached through the local `%s` without holding %s" % (e.node["f"], holder[0], want))
+                continue
             held = RU.held_at(ts, e)
             R.check(held is not None and want in held, "LOCK", inst, where(f, e), "%s held%s" % (want, (" via " + str(sites.get(name))) if name in requires else ""),
                     "tracer->%s touched without holding %s (held on all paths: %s)" % (e.node["f"], want, sorted(held or [])))
